@@ -836,7 +836,7 @@ class Interp:
             if m2 == "ast" and hasattr(ast, attr):
                 return getattr(ast, attr)
             return ExtRef(full)
-        if name in SAFE_BUILTINS or name in NATIVE_TYPES or name in ("isinstance", "any", "all", "getattr", "hasattr", "next", "iter", "issubclass", "callable", "print", "super", "id", "type", "map", "filter", "compile"):
+        if name in SAFE_BUILTINS or name in NATIVE_TYPES or name in ("isinstance", "any", "all", "getattr", "hasattr", "next", "iter", "issubclass", "callable", "print", "super", "id", "type", "map", "filter", "compile", "vars"):
             return ExtRef(f"builtins.{name}")
         if name in ("NotImplemented", "Ellipsis"):
             return Sym(name)
